@@ -5,6 +5,7 @@ import (
 	"crypto/sha256"
 	"errors"
 	"fmt"
+	"github.com/hashicorp/go-hclog"
 	"io"
 	"runtime"
 	"sort"
@@ -29,6 +30,8 @@ type c05Case struct {
 	// Rounds > 1: the same burst is repeated on the same connection; a frame
 	// left behind in a buffer at the end of a burst shows up as a missing frame.
 	Rounds int `json:"rounds,omitempty"`
+	// Debug: the server's logger is at debug level (the response writer dumps every packet it writes)
+	Debug bool `json:"debug,omitempty"`
 }
 
 func c05Payload(writer, seq, size int) []byte {
@@ -45,6 +48,7 @@ func genC05(maxWriters int) func(t *rapid.T) c05Case {
 			ReadDelay:  rapid.SampledFrom([]int{0, 0, 0, 5, 30}).Draw(t, "readdelay"),
 			GoMaxProcs: rapid.SampledFrom([]int{1, 2, 4, 16}).Draw(t, "gomaxprocs"),
 			SlowReader: rapid.IntRange(0, 4).Draw(t, "slow") == 0,
+			Debug:      rapid.IntRange(0, 5).Draw(t, "debuglog") == 0,
 		}
 		n := rapid.IntRange(2, maxWriters).Draw(t, "nwriters")
 		if rapid.IntRange(0, 9).Draw(t, "many") == 0 {
@@ -164,6 +168,10 @@ func c05Exec(c c05Case, st *lab.Stats) *lab.Fail {
 	_ = mux.ExtendedOperation(lab.StartTLSHandler(main.ServerTLS()), gldap.ExtendedOperationStartTLS)
 	closed := make(chan int, 4)
 	opts := lab.ServerOpts{OnClose: func(id int) { closed <- id }}
+	if c.Debug {
+		opts.LogLevel = hclog.Debug
+		st.Class("logger=debug")
+	}
 	if c.Transport == "tls" {
 		opts.TLS = main.ServerTLS()
 	}
@@ -322,7 +330,7 @@ func bucket(n int) int {
 func TestC05(t *testing.T) {
 	lab.Prop[c05Case]{
 		ID: "C05", Part: "writers",
-		Rule: "rapid scenarios: N concurrent writers (2..24, occasionally up to 300) on ONE connection, all released together by a barrier, each writing 1..20 SearchResultEntry frames with payload sizes from {0,1,20,200,1000,4050..4100 (bufio boundary),5000,8192,16384,40000,70000} then a SearchDone; transport plain/TLS/StartTLS; client reads eagerly, late, or slowly (back-pressure); GOMAXPROCS 1/2/4/16; or 'burst mode': 16..256 writers with 0..2 tiny frames each, the burst repeated 2..6 times on the same connection; oracle = strict incremental parse of the received stream + multiset equality with the writes that returned nil + per-writer order (a frame left behind in a buffer at the end of a burst is a missing frame); non-trivial = >= 2 writers, (>= 1 frame > 4096 B or a multi-round burst) and frames of different writers measurably interleaved in the stream; distinct by hash of the scenario",
+		Rule: "rapid scenarios: N concurrent writers (2..24, occasionally up to 300) on ONE connection, all released together by a barrier, each writing 1..20 SearchResultEntry frames with payload sizes from {0,1,20,200,1000,4050..4100 (bufio boundary),5000,8192,16384,40000,70000} then a SearchDone; transport plain/TLS/StartTLS; server logger at error or (one case in six) debug level; client reads eagerly, late, or slowly (back-pressure); GOMAXPROCS 1/2/4/16; or 'burst mode': 16..256 writers with 0..2 tiny frames each, the burst repeated 2..6 times on the same connection; oracle = strict incremental parse of the received stream + multiset equality with the writes that returned nil + per-writer order (a frame left behind in a buffer at the end of a burst is a missing frame); non-trivial = >= 2 writers, (>= 1 frame > 4096 B or a multi-round burst) and frames of different writers measurably interleaved in the stream; distinct by hash of the scenario",
 		Gen:  genC05(24),
 		Exec: c05Exec,
 	}.Run(t)
